@@ -371,7 +371,15 @@ Step(st) ==
     [] f = "pin" ->              \* a thread enters the callback of probe node n
          [s0 EXCEPT !.nodes[fr.n].n = @ + 1, !.overlap = @ \/ s0.nodes[fr.n].n > 0]
     [] f = "pout" -> [s0 EXCEPT !.nodes[fr.n].n = @ - 1]
-    [] f = "plog" -> [s0 EXCEPT !.log = Append(@, LogEntry(s0.nodes[fr.n].a, fr.t, fr.v, s0.cur))]
+    [] f = "plog" ->             \* the callback proper; reaction 1 (also in the multi-threaded instance): attach a probe to an announced group
+         LET nd == s0.nodes[fr.n]
+             st1 == [s0 EXCEPT !.log = Append(@, LogEntry(nd.a, fr.t, fr.v, s0.cur))] IN
+         IF nd.b = 1 /\ fr.t = "N" /\ fr.v[1] = "g"
+         THEN LET pid == st1.nprobe + 1
+                  pn == NextNode(st1)
+                  st2 == AddNode([st1 EXCEPT !.nprobe = pid, !.pcre = Append(@, <<st1.cur, st1.callno>>)], [Node("probe", 0) EXCEPT !.a = pid])
+              IN Push(st2, <<Fr("ssub", fr.v[2], "", U, pn), F0("dropv")>>)
+         ELSE st1
     [] f = "body" -> CellBody(s0, fr.n, fr.t, fr.v)
     [] f = "bump" -> [s0 EXCEPT !.cnt[fr.x] = @ + 1]
     [] f = "sub" -> SubStep(s0, fr)
